@@ -1356,7 +1356,10 @@ class LangServer:
             # Update file contents with changes
             reparse_req = True
             if self.sync_type == 1:
-                file_obj.apply_change(params["contentChanges"][0])
+                # Full synchronisation: every element is the whole new text and
+                # they apply in order, the last one is the document
+                for change in params["contentChanges"]:
+                    file_obj.apply_change(change)
             else:
                 try:
                     reparse_req = False
